@@ -20,7 +20,7 @@ def sh(cmd, **kw):
     return p.returncode, p.stdout
 
 
-def evaluate(seed, patch, checks, outdir):
+def evaluate(seed, patch, checks, outdir, stop_on_catch=False):
     lab = os.path.join(LABROOT, seed)
     shutil.rmtree(lab, ignore_errors=True)
     os.makedirs(lab)
@@ -48,6 +48,8 @@ def evaluate(seed, patch, checks, outdir):
                     kinds.append({"line": l.replace(lab + "/verif/", ""), "with_failing_input": not l.rstrip().endswith("no-failing-input-found")})
             res[c] = {"exit": rc, "seconds": round(time.time() - t), "violations": kinds}
             print(seed, c, "exit", rc, [k["line"] for k in kinds], flush=True)
+            if stop_on_catch and any(k["with_failing_input"] for k in kinds):
+                break
         if outdir:
             # merge: a partial re-run (some checks only) updates those entries and keeps the others
             cp = os.path.join(outdir, "caught.json")
